@@ -93,13 +93,31 @@ impl Sink<Response<()>> for KeyedTransport {
     }
 }
 
+/// The key type handed to the limiter: equality is the number, but the HASH only sees its lowest
+/// bit, so keys 0 and 2 collide in every hash map (K: Eq + Hash allows that): a limiter that
+/// identifies keys by their hash would merge them.
+#[derive(Clone, Debug, PartialEq, Eq)]
+pub struct HKey(pub u32);
+
+impl std::hash::Hash for HKey {
+    fn hash<H: std::hash::Hasher>(&self, h: &mut H) {
+        (self.0 & 1).hash(h)
+    }
+}
+
+impl std::fmt::Display for HKey {
+    fn fmt(&self, f: &mut std::fmt::Formatter<'_>) -> std::fmt::Result {
+        write!(f, "{}", self.0)
+    }
+}
+
 pub(crate) type Chan = BaseChannel<(), (), KeyedTransport>;
 
 pub fn run_impl(s: &Script) -> (Vec<Vec<String>>, Vec<String>) {
     let (tx, rx) = mpsc::unbounded::<Chan>();
     let mut tx = Some(tx);
     let drops: Rc<RefCell<Vec<(usize, u32)>>> = Rc::new(RefCell::new(vec![]));
-    let filter = rx.max_channels_per_key(s.n, |c: &Chan| c.get_ref().key);
+    let filter = rx.max_channels_per_key(s.n, |c: &Chan| HKey(c.get_ref().key));
     let mut filter = Box::pin(filter);
     let waker = futures::task::noop_waker();
     let mut cx = Context::from_waker(&waker);
